@@ -64,9 +64,15 @@ def _conv(cname, argstr):
                 return VETO
             return v
     elif cname == 'float':
+        flo, fhi = (list(a) + [None] * 2)[:2]
+        flo, fhi = k.get('min', flo), k.get('max', fhi)
+
         def f(s):
             if _FLOAT.match(s):
-                return float(s)
+                v = float(s)
+                if (flo is not None and v < flo) or (fhi is not None and v > fhi):
+                    return VETO
+                return v
             if s == '' or _SIGN_INSIDE.search(s) or (
                     _NOT_NUM.search(s.replace('.', '').replace('e', '').replace('E', ''))
                     and s.lower().strip('+-') not in ('nan', 'inf', 'infinity')):
